@@ -247,7 +247,7 @@ ATTRS = (
 )
 PSEUDO_CLASSES = [PseudoClass('hover'), PseudoClass('nth-child', 'an+b'), PseudoClass('lang', 'en')]
 PSEUDO_ELEMENTS = [PseudoElement('before', 2), PseudoElement('first-line', 1), PseudoElement('selection', 2), PseudoElement('slotted', 2, 'b')]
-PLAIN = [Id('i'), Class('c')] + ATTRS + PSEUDO_CLASSES
+PLAIN = [Id('i'), Id('aabbcc'), Class('c')] + ATTRS + PSEUDO_CLASSES  # ('#aabbcc': an id, not a colour to be shortened)
 NEGATIONS = [Not(x) for x in TYPE_SELECTORS + PLAIN]  # the non-negation subset; pseudo-elements may not be negated
 
 SIMPLE = {s.key: s for s in TYPE_SELECTORS + PLAIN + PSEUDO_ELEMENTS + NEGATIONS}
